@@ -35,15 +35,18 @@ def _mod():
 
 
 # --------------------------------------------------------------------------- canonical trees
-def canon_node(n):
-    kids = sorted(canon_node(c) for c in n.children)
+def canon_node(n, strip=False):
+    """`strip`: data lines as the reader would hand them back (stripped, blank ones dropped) — used only
+    where an in-memory forest is compared with a re-read text"""
+    kids = sorted(canon_node(c, strip) for c in n.children)
+    data = [d.strip() for d in n.data if d.strip()] if strip else list(n.data)
     return ("(" + hexs(n.title) + " " + " ".join([str(len(n.settings or []))] + [hexs(s) for s in (n.settings or [])])
-            + " " + " ".join([str(len(n.data))] + [hexs(d) for d in n.data])
+            + " " + " ".join([str(len(data))] + [hexs(d) for d in data])
             + " " + str(len(kids)) + "".join(" " + k for k in kids) + ")")
 
 
-def canon_forest(nodes):
-    return str(len(nodes)) + "".join(" " + canon_node(n) for n in nodes)
+def canon_forest(nodes, strip=False):
+    return str(len(nodes)) + "".join(" " + canon_node(n, strip) for n in nodes)
 
 
 def ordered_text(nodes, order):
@@ -229,6 +232,25 @@ def addr_status(olds, snap, keys):
     return amb, touch, through
 
 
+def _is_falsy_value(v):
+    """a valid requested value that Python's truthiness treats like None: 0, 0.0, False, "" """
+    return v is not None and not v
+
+
+def classify_data_mismatch(old, data, got, created):
+    """which defect class a wrong data block of a target belongs to (dict data)"""
+    if isinstance(data, dict):
+        if any(_is_falsy_value(v) for v in data.values()):
+            as_none = {k: (None if _is_falsy_value(v) else v) for k, v in data.items()}
+            if got == expected_lines(old, as_none):
+                return "C19:cp2k:falsy-value-dropped"      # exactly the falsy values lost their value
+        if created and got == [str(k) for k in data] and any(v is not None for v in data.values()):
+            return "C19:cp2k:new-section-drops-values"     # every value dropped (the pre-fix behaviour)
+        if any(v is None for v in data.values()):
+            return "C19:cp2k:none-value-printed-as-None"
+    return "C19:cp2k:requested-data-missing"
+
+
 def expected_lines(old, data):
     """the merge law the property demands: existing keys replaced in place, new keys appended in dict
     order, None -> bare key"""
@@ -262,7 +284,7 @@ def check_case(C, tmp, text, update, remove):
     update = update or {}
     remove = remove or []
     # print / re-read round trip of the final in-memory forest
-    mem = canon_forest(rec["nodes"])
+    mem = canon_forest(rec["nodes"], strip=True)      # modulo the reader's strip ("KEY " for a "" value)
     if r.out_canon != mem:
         roundtrip_ok = all(_roundtrippable(n) for n in all_nodes(rec["nodes"]))
         if roundtrip_ok:
@@ -416,10 +438,10 @@ def check_case(C, tmp, text, update, remove):
             if list(n.data) != want_d:
                 if id(n) in big_ids and list(n.data) == d:
                     sig = "C19:cp2k:third-duplicate-bare-key"
-                elif any(v is None for v in (data.values() if isinstance(data, dict) else [])):
-                    sig = "C19:cp2k:none-value-printed-as-None"
-                else:
+                elif rep:
                     sig = "C19:cp2k:requested-data-missing"
+                else:
+                    sig = classify_data_mismatch(d, data, list(n.data), created=False)
                 fails.append((sig, f"target {tgt}: data {list(n.data)}, requested {want_d}"))
             if id(n) in big_ids and list(n.settings) == s and list(n.data) == d:
                 continue          # the bare-registered member of a >=3 group: reported above
@@ -458,7 +480,8 @@ def check_case(C, tmp, text, update, remove):
             # (replace + dict with values is not a meaningful request: the section may already have been
             #  created as a missing parent by an earlier entry, and replace then stores the keys)
             if list(n.data) != want_d and not rep_dict:
-                fails.append(("C19:cp2k:new-section-drops-values", f"new section {tgt}: data {list(n.data)}, requested {want_d}"))
+                sig = classify_data_mismatch([], data, list(n.data), created=True)
+                fails.append((sig, f"new section {tgt}: data {list(n.data)}, requested {want_d}"))
             want_s = list(val["settings"]) if val.get("settings") else []
             if list(n.settings or []) != want_s:
                 fails.append(("C19:cp2k:requested-settings-missing",
@@ -473,7 +496,7 @@ def _roundtrippable(n):
         return False
     if any((not s) or ws(s) for s in (n.settings or [])):
         return False
-    return all(d and d == d.strip() and not d.startswith("&") and "\n" not in d and "\r" not in d for d in n.data)
+    return all((not d.strip()) or (not d.strip().startswith("&") and "\n" not in d and "\r" not in d) for d in n.data)
 
 
 def _order_dependent(rec, update, remove):
@@ -538,6 +561,17 @@ def check_idempotent(C, tmp, r, update, remove, tags=()):
                 continue
             rb = Real(C, tmp, ra.out_text, one, None)
             if rb.answer() != ra.out_canon:
+                d = v.get("data", {})
+                if isinstance(d, dict) and any(_is_falsy_value(x) for x in d.values()):
+                    # is it the falsy values?  the same entry with them made truthy must then be idempotent
+                    v2 = copy.deepcopy(v)
+                    v2["data"] = {k: ("x1" if _is_falsy_value(x) else x) for k, x in d.items()}
+                    rc_ = Real(C, tmp, r.rec["text"] if "text" in r.rec else r.out_text, {tgt: v2}, None)
+                    if rc_.err is None and rc_.out_canon is not None and not rc_.out_canon.startswith("reread-"):
+                        rd_ = Real(C, tmp, rc_.out_text, {tgt: copy.deepcopy(v2)}, None)
+                        if rd_.answer() == rc_.out_canon:
+                            sigs.append("C19:cp2k:falsy-value-dropped")
+                            continue
                 sigs.append(_entry_signature(ra.rec, rb.rec if "all" in rb.rec else None, tgt, v))
         if not sigs:
             sigs = ["C19:cp2k:not-idempotent"]
@@ -579,6 +613,8 @@ TITLES = ["A", "B", "K", "KIND", "MD", "EACH", "PRINT", "kind", "Each", "SUBSYS"
 SETTS = ["X", "Y", "H", "O", "OFF", "ON", "#c"]
 KEYS = ["STEPS", "TEMP", "FILE", "MD", "A", "K", "steps"]
 VALS = ["5", "0.5", "a b", "[fs] 2", "x"]
+# requested values of every Python kind, incl. the falsy-but-valid ones (0, 0.0, False, "") and "0"
+ODD_VALS = [None, 7, 0, 0.0, False, "", "0", True, -1.5]
 
 
 def gen_tree(rng, depth, maxdepth):
@@ -723,7 +759,7 @@ def gen_update(rng, roots):
             else:
                 d = {}
                 for _ in range(rng.choice((0, 1, 1, 2, 3))):
-                    v = rng.choice(VALS + [None, 7]) if rng.random() < 0.5 else rng.choice(VALS)
+                    v = rng.choice(ODD_VALS) if rng.random() < 0.5 else rng.choice(VALS)
                     d[rng.choice(KEYS + ["NEWKEY", "Z"])] = v
                 val["data"] = d
         upd[tgt] = val
@@ -771,6 +807,22 @@ def engine_like_update(rng):
     return upd, ["EXT_RESTART", "FORCE_EVAL->SUBSYS->COORD"]
 
 
+def engine_like_update_dict(rng):
+    """the same request written with dicts (no replace), incl. zero / False / empty values, for sections that
+    exist in a template and for sections (and parents) that have to be created"""
+    upd = {
+        "GLOBAL": {"data": {"PROJECT": "md_step", "PRINT_LEVEL": "LOW", "TRACE": False}},
+        "MOTION->MD": {"data": {"STEPS": rng.randint(0, 3), "TIMESTEP": rng.choice((0.5, 0.0, 2)), "TEMPERATURE": 0}},
+        "MOTION->PRINT->RESTART": {"data": {"BACKUP_COPIES": 0}},
+        "MOTION->PRINT->RESTART->EACH": {"data": {"MD": 0}},
+        "MOTION->MD->THERMOSTAT->CSVR": {"data": {"TIMECON": 0.0}},
+        "MOTION->PRINT->TRAJECTORY": {"data": {"APPEND": False, "FILENAME": ""}},
+        "FORCE_EVAL->DFT->SCF->PRINT->RESTART": {"data": {"BACKUP_COPIES": 0, "ADD_LAST": "0"}},
+        "EXT_RESTART": {"data": {"RESTART_COUNTERS": False, "RESTART_FILE_NAME": ""}},
+    }
+    return upd, ["FORCE_EVAL->SUBSYS->COORD"]
+
+
 FIXED = [
     # (template, update, remove) boundary cases
     ("&MOTION\n &MD\n  STEPS 10\n &END MD\n&END MOTION\n", {"MOTION->MD": {"settings": ["X"]}}, None),
@@ -789,6 +841,18 @@ FIXED = [
     ("&A\n &K Y\n  V 2\n &END K\n&END A\n", {"A->K": {"settings": ["Y", "Z", "Z"], "data": {"V": None, "W": None}}}, None),
     ("&A\n &K Y\n  V 2\n &END K\n&END A\n", {"A->K": {"replace": True, "settings": [], "data": {"V": None}}}, None),
     ("&A\n&END A\n", {"A->NEW": {"replace": True, "settings": ["S"], "data": {"V": "1", "W": None}}}, None),
+    # falsy-but-valid values (0, 0.0, False, "") and "0": created leaf / created with missing parent / created root /
+    # existing section; merge mode; replace + list for comparison
+    ("&MOTION\n &MD\n  STEPS 10\n &END MD\n&END MOTION\n", {"MOTION->MD->THERMOSTAT": {"data": {"K": 0}}}, None),
+    ("&MOTION\n &MD\n  STEPS 10\n &END MD\n&END MOTION\n", {"MOTION->PRINT->RESTART": {"data": {"BACKUP_COPIES": 0}}}, None),
+    ("&MOTION\n &MD\n  STEPS 10\n &END MD\n&END MOTION\n", {"MOTION->MD->THERMOSTAT->CSVR": {"data": {"TIMECON": 0.0, "FLAG": None, "APPEND": False}}}, None),
+    ("&MOTION\n &MD\n  STEPS 10\n &END MD\n&END MOTION\n", {"EXT": {"data": {"K": 0, "F": False, "E": "", "Z": "0", "R": 0.0}}}, None),
+    ("&MOTION\n &MD\n  STEPS 10\n &END MD\n&END MOTION\n", {"MOTION->MD": {"data": {"STEPS": 0}}}, None),
+    ("&MOTION\n &MD\n  STEPS 10\n &END MD\n&END MOTION\n", {"MOTION->MD": {"data": {"K": ""}}}, None),
+    ("&MOTION\n &MD\n  STEPS 10\n &END MD\n&END MOTION\n", {"MOTION->MD": {"data": {"STEPS": "", "K": False, "Z": "0", "R": 0.0}}}, None),
+    ("&MOTION\n &MD\n  STEPS 10\n &END MD\n&END MOTION\n", {"MOTION->MD": {"data": {"K": False}}, "MOTION->NEW": {"data": {"K": False}, "settings": ["S"]}}, None),
+    ("&MOTION\n &MD\n  STEPS 10\n &END MD\n&END MOTION\n", {"MOTION->PRINT->RESTART": {"data": ["BACKUP_COPIES 0"], "replace": True}}, None),
+    ("", {"ROOT": {"data": {"K": 0}}}, None),
     ("&\n", None, None), ("&END\n", None, None), ("&A\n&ENDPOINT\n X 1\n&END\n", None, None), ("& END\n&END\n", None, None),
     ("", {"NEW->SUB": {"data": {"K": "1"}}}, None), ("X 1\n", {}, []),
 ]
@@ -847,6 +911,7 @@ def run_part(ctx):
         for name, text in repo_inputs():
             cases.append((text, None, None, "repo"))
             cases.append((text, *engine_like_update(rng), "repo"))
+            cases.append((text, *engine_like_update_dict(rng), "repo"))
             for _ in range(20 if ctx.quick else 200):
                 # random edits addressed to the file's own sections
                 try:
@@ -858,7 +923,7 @@ def run_part(ctx):
                 upd = {}
                 for _k in range(rng.randint(1, 3)):
                     tgt = rng.choice(keys) if keys and rng.random() < 0.7 else rng.choice(keys or ["X"]) + "->NEW"
-                    upd[tgt] = {"data": {rng.choice(KEYS + ["ABC", "GAMMA", "MD"]): rng.choice(VALS)},
+                    upd[tgt] = {"data": {rng.choice(KEYS + ["ABC", "GAMMA", "MD"]): rng.choice(VALS + ODD_VALS)},
                                 "replace": rng.random() < 0.3}
                 rem = [rng.choice(keys)] if keys and rng.random() < 0.5 else None
                 cases.append((text, upd, rem, "repo"))
@@ -898,12 +963,12 @@ def run_part(ctx):
         "cp2k part: sibling order of a SectionNode's children (a Python set) is observed at run time and handed to the "
         "model; all outputs are compared as section trees with children sorted recursively",
     ]
-    return ("cp2k: 20 fixed boundary templates; every ASCII *.inp under /repo/examples and /repo/test unchanged, with the "
+    return ("cp2k: 30 fixed boundary templates (incl. zero / False / empty-string values for created and existing sections); every ASCII *.inp under /repo/examples and /repo/test unchanged, with the "
             "engine's own update dict and with random edits of its sections; seeded random templates from a section grammar "
             "(depth ≤ 3, 2- and 3-member duplicate-title groups with equal/distinct settings, comment/data lines, blank "
             "lines, mixed case, CRLF, 15 % malformed: lone '&', stray/missing &END, &ENDPOINT, '& X', stray data) with "
             "random update dicts (present / duplicate-suffixed / bare-duplicate / absent targets with missing parents, "
-            "replace, settings, dict data with None/int values, list data) and remove lists; distinct by "
+            "replace, settings, dict data with None / int / 0 / 0.0 / False / \"\" / \"0\" values, list data) and remove lists; distinct by "
             "(template, update, remove) of the edits that did not raise; targets with an ambiguous address are excluded "
             "from the exactness predicates")
 
